@@ -527,4 +527,37 @@ pub fn judge<'f>(s: &mut Sess, _fs: &'f Fs, _hs: &mut [Option<H<'f>>], op: &Op, 
     }
 }
 
+/// C13: a read-only session issues no device write; sole exception: FS-info sector on FAT32 at unmount after a
+/// statistics query when the library had no trusted free count.
+pub fn check_readonly_writes(s: &mut Sess, op: &Op, log: &[Ev], unmounting: bool) {
+    for e in log {
+        if e.kind != EvKind::Write {
+            continue;
+        }
+        let mut allowed = false;
+        if let Some(p) = &s.prev {
+            let g = &p.g;
+            if unmounting && g.fat_bits == 32 && s.stats_armed && !s.fsinfo_trusted {
+                let fo = g.fsinfo_sector * g.bps;
+                if e.off >= fo && e.off + e.len.max(1) <= fo + g.bps {
+                    allowed = true;
+                    s.counters.readonly_exceptions += 1;
+                }
+            }
+        }
+        if !allowed {
+            let d = format!(
+                "read-only session: {} issued a device write of {} bytes at offset {}{}",
+                op.show(),
+                e.len,
+                e.off,
+                if e.in_drop { " (from a destructor)" } else { "" }
+            );
+            let region = s.prev.as_ref().map(|p| format!("{:?}", p.g.region(e.off))).unwrap_or_default();
+            s.violate("C13", "write-in-read-only-session", op, region.split('(').next().unwrap_or(""), d);
+            return;
+        }
+    }
+}
+
 include!("checks_post.rs");
